@@ -16,7 +16,7 @@ CLAUSES = []
 ASSUMPTIONS = [
     "reference = direct O(N^2) DFT (matrix product, long double twiddles) for N <= 512, numpy.fft.fft of the explicitly zero-padded "
     "record above that (trusted base)",
-    "requested n >= npts (padding, not truncation); records finite, n 2..2000 (quick <= 1200)",
+    "requested n >= npts (padding, not truncation); records finite, n 2..9000 (quick <= 2500)",
     "value tolerance 1e-12*dt*sum|x| per bin (FFT rounding ~ eps*log2(N)*sum|x|); frequency tolerance 4 eps relative",
     "inverse helper: spectra of even N (every padded N and the even-length unpadded case): the positive-bin spectrum of an odd-length "
     "transform does not determine an even-length record",
@@ -24,7 +24,7 @@ ASSUMPTIONS = [
 ]
 EPS = np.finfo(float).eps
 LD = np.longdouble
-MAX_N = 1200 if core.tier() == "quick" else 2000
+MAX_N = 2500 if core.tier() == "quick" else 9000
 
 
 def dft_ref(x, N):
@@ -53,7 +53,7 @@ def next_pow2(n, plus=0):
 _lengths = st.one_of(
     st.integers(2, 40),
     st.integers(2, MAX_N),
-    st.integers(1, 10).flatmap(lambda e: st.sampled_from([2 ** e - 1, 2 ** e, 2 ** e + 1])).filter(lambda n: 2 <= n <= MAX_N),
+    st.integers(1, 13).flatmap(lambda e: st.sampled_from([2 ** e - 1, 2 ** e, 2 ** e + 1])).filter(lambda n: 2 <= n <= MAX_N),
     st.integers(1, MAX_N // 2 - 1).map(lambda k: 2 * k + 1),
 )
 
